@@ -45,7 +45,8 @@ def run_one(m, tests, tier, jobs):
         if tests:
             p = subprocess.run(
                 ['/venv/bin/python', '-m', 'pytest', '-q', '-x', '-p', 'no:cacheprovider',
-                 '--timeout=900', '--deselect', 'tests/test_outputasync.py::test_executor',
+                 '--timeout=900', '--deselect', 'test_outputasync.py::test_executor', '--deselect', 'test_outputasync.py::test_executor_args', '--deselect', 'tests/test_outputasync.py::test_executor', '--deselect', 'test_outputasync.py::test_executor',
+           '--deselect', 'test_outputasync.py::test_executor_args',
                  '--deselect', 'tests/test_outputasync.py::test_executor_args', 'tests'],
                 env=env, cwd=scratch, capture_output=True, text=True)
             res['tests_green'] = p.returncode == 0
